@@ -138,18 +138,32 @@ func builtinObjectDefineProperties(call FunctionCall) Value {
 	// 15.2.3.7: convert every descriptor (step 5) before defining any property (step 7),
 	// so an invalid descriptor leaves the object untouched.
 	properties := call.runtime.toObject(call.Argument(1))
-	var names []string
-	var descriptors []property
-	properties.enumerate(false, func(name string) bool {
-		names = append(names, name)
-		descriptors = append(descriptors, toPropertyDescriptor(call.runtime, properties.get(name)))
-		return true
-	})
-	for index, name := range names {
-		obj.defineOwnProperty(name, descriptors[index], true)
+	for _, define := range propertyDescriptorsOf(call.runtime, properties) {
+		obj.defineOwnProperty(define.name, define.descriptor, true)
 	}
 
 	return val
+}
+
+type namedDescriptor struct {
+	name       string
+	descriptor property
+}
+
+// propertyDescriptorsOf is 15.2.3.7 steps 3-5: the names of the own enumerable properties are
+// taken first, then every one of them is read and converted (a member that a getter of an earlier
+// member removed reads as undefined and is rejected), and nothing has been defined yet.
+func propertyDescriptorsOf(rt *runtime, properties *object) []namedDescriptor {
+	var names []string
+	properties.enumerate(false, func(name string) bool {
+		names = append(names, name)
+		return true
+	})
+	descriptors := make([]namedDescriptor, 0, len(names))
+	for _, name := range names {
+		descriptors = append(descriptors, namedDescriptor{name, toPropertyDescriptor(rt, properties.get(name))})
+	}
+	return descriptors
 }
 
 func builtinObjectCreate(call FunctionCall) Value {
@@ -164,11 +178,9 @@ func builtinObjectCreate(call FunctionCall) Value {
 	propertiesValue := call.Argument(1)
 	if propertiesValue.IsDefined() {
 		properties := call.runtime.toObject(propertiesValue)
-		properties.enumerate(false, func(name string) bool {
-			descriptor := toPropertyDescriptor(call.runtime, properties.get(name))
-			obj.defineOwnProperty(name, descriptor, true)
-			return true
-		})
+		for _, define := range propertyDescriptorsOf(call.runtime, properties) {
+			obj.defineOwnProperty(define.name, define.descriptor, true)
+		}
 	}
 
 	return objectValue(obj)
